@@ -109,7 +109,7 @@ def run(ctx, prop, lanes=None, depth=None):
              "machine_mutation_flags": sum(1 for o in obs if any(o.get("mut", {}).values()))}
     if not mine:
         raise D.Inconclusive("machine: no program was charged to %s" % prop)
-    slim = {i: {"src": o["src"], "out": o["out"], "prop": o["prop"], "parent": o["parent"]} for i, o in by_id.items()}
+    slim = {i: {"src": o["src"], "out": o["out"], "out_reused_on_other_inputs": o.get("outB"), "prop": o["prop"], "parent": o["parent"]} for i, o in by_id.items()}
     return mine, slim, stats
 
 
